@@ -17,7 +17,7 @@ from fractions import Fraction
 from typing import Optional
 
 from .core import AnalysisError, dotted, norm
-from .alg import T, num
+from .alg import T, num, var
 from .pyreader import PyReader, Raised
 
 
@@ -98,6 +98,10 @@ def qvector(tag: str, dim: Dim, facs: list) -> Obj:
     return v
 
 
+BASE_DIMENSIONS = ("length", "mass", "time", "current", "temperature", "amount_of_substance", "luminous_intensity", "information", "angle")
+SI_BASE_UNITS = ("meter", "kilogram", "second", "ampere", "kelvin", "mole", "candela")
+
+
 class GateReader(PyReader):
     """pyreader + the gate's objects. Calls of `assert_equivalent_dimension` are recorded in `self.events` unless that function is part of the
     evaluated module."""
@@ -164,6 +168,10 @@ class GateReader(PyReader):
             return Dim()
         if d in ("angle_type", ):
             return Dim.of(angle=1)
+        if d and d.startswith("units.") and d[6:] in BASE_DIMENSIONS:
+            return Dim.of(**{d[6:]: 1})
+        if d and d.startswith("units.") and d[6:] in SI_BASE_UNITS:
+            return var("unit:" + d[6:])
         if d in ("S.Infinity", "oo"):
             return Fac("inf")
         if d in ("S.NaN", "nan"):
@@ -178,6 +186,8 @@ class GateReader(PyReader):
             if attr.lstrip("_") in base.attrs:
                 v = base.attrs[attr.lstrip("_")]
                 return list(v) if isinstance(v, list) else v
+        if isinstance(base, tuple) and len(base) == 2 and base[0] == "complex-of" and attr in ("real", "imag", "conjugate"):
+            raise MagnitudeUse(n, f".{attr} of the scale factor's value")
         if isinstance(base, Dim) and attr == "name":
             return "str"
         if isinstance(base, Fac):
@@ -202,6 +212,9 @@ class GateReader(PyReader):
                 return args[0].dimensionless()
             if attr == "equivalent_dims" and len(args) == 2 and all(isinstance(a, Dim) for a in args):
                 return args[0].exps == args[1].exps
+            if attr == "get_dimensional_dependencies" and len(args) == 1 and isinstance(args[0], Dim) and not args[0].any_dim:
+                # sympy: {base dimension: exponent}; angle is a base dimension of dimsys_SI like any other
+                return {Dim.of(**{b: 1}): (int(e) if e.denominator == 1 else num(e)) for b, e in args[0].exps}
         return NotImplemented
 
     def hook_binop(self, o, l, r, n):
@@ -274,6 +287,17 @@ class GateReader(PyReader):
             if v == 1 or (isinstance(v, T) and v.op == "num" and v.val == 1):
                 return Dim()
             self.fail(n, "Dimension(...) of something other than 1 or a dimension")
+        if name in ("getattr", "hasattr") and len(n.args) >= 2:
+            v = self.ev(n.args[0], env, fns)
+            a_ = self.ev(n.args[1], env, fns)
+            if isinstance(v, Obj) and isinstance(a_, str):
+                if name == "hasattr":
+                    return a_ in v.attrs or a_.lstrip("_") in v.attrs
+                if a_ in v.attrs:
+                    return v.attrs[a_]
+                if len(n.args) == 3:
+                    return self.ev(n.args[2], env, fns)
+                raise Raised("AttributeError", getattr(n, "lineno", 0))
         if name in ("print_dimension", "str", "repr"):
             return "str"
         return NotImplemented
